@@ -203,6 +203,60 @@ static void solver_case(CaseCtx& c, int T)
     c.obs.info.i("iterations", g->numberOfIterations()).i("levels", GMGPolarVerifAccess::number_of_levels(*g));
 }
 
+// Every shipped input-function object is shared by all threads of the rhs build / level-cache construction / exact-error
+// loops: evaluate all of them concurrently on one object, the way build_rhs_f() does.
+static void input_functions_case(CaseCtx& c, int T)
+{
+    Rng& rng = c.rng;
+    c.obs.params.str("kind", "input-functions").i("T", T);
+    c.announce("input-functions/T" + std::to_string(T));
+    omp_set_num_threads(T);
+    const int nr = 12, nt = 16;
+    double sink = 0.0;
+    int classes = 0;
+    for (int geom = 0; geom <= 3; geom++)
+        for (int prob = 0; prob <= 3; prob++)
+            for (int prof = 0; prof <= 6; prof++) {
+                ProblemSpec s;
+                s.geom = geom;
+                s.prob = prob;
+                s.prof = prof;
+                s.Rmax = 1.3;
+                random_geom_params(rng, s, true);
+                s.alpha_jump = documented_alpha_jump(prof, s.Rmax);
+                std::unique_ptr<SourceTerm> f;
+                std::unique_ptr<BoundaryConditions> bc;
+                std::unique_ptr<ExactSolution> ex;
+                try {
+                    f  = make_source(s);
+                    bc = make_boundary(s);
+                    ex = make_exact(s);
+                }
+                catch (const std::exception&) {
+                    continue; // combination not shipped
+                }
+                auto geo = make_geometry(s);
+                auto pr  = make_profile(s);
+                classes++;
+                double local = 0.0;
+#pragma omp parallel for reduction(+ : local)
+                for (int i = 0; i < nr; i++) {
+                    double r = 1e-3 + (s.Rmax - 1e-3) * (i + 0.5) / nr;
+                    for (int j = 0; j < nt; j++) {
+                        double th = 2 * M_PI * j / nt, sn = std::sin(th), cs = std::cos(th);
+                        local += f->rhs_f(r, th, sn, cs) + bc->u_D(s.Rmax, th, sn, cs) + bc->u_D_Interior(r, th, sn, cs) + ex->exact_solution(r, th, sn, cs);
+                        local += geo->Fx(r, th, sn, cs) + geo->Fy(r, th, sn, cs) + geo->dFx_dr(r, th, sn, cs) + geo->dFy_dr(r, th, sn, cs) + geo->dFx_dt(r, th, sn, cs) + geo->dFy_dt(r, th, sn, cs);
+                        local += pr->alpha(r) + pr->beta(r);
+                    }
+                }
+                sink += local;
+            }
+    c.obs.info.i("input_function_triples", classes).b("finite", std::isfinite(sink));
+    JObj sig;
+    sig.str("kind", "input-functions").i("T", T);
+    c.obs.top.obj("sig", sig);
+}
+
 static void run_case(CaseCtx& c)
 {
     // one report file per case: <dir>/case<index>.<pid>
@@ -214,7 +268,9 @@ static void run_case(CaseCtx& c)
     verif_canary_race();
     int T = TS[c.rng.range(0, 9)];
     c.obs.info.i("pid", (long long)getpid());
-    if (c.index % 3 == 2)
+    if (c.index % 20 == 19)
+        input_functions_case(c, T);
+    else if (c.index % 3 == 2)
         solver_case(c, T);
     else
         operators_case(c, T);
